@@ -56,6 +56,55 @@ CHECKS = {
         "Trusted: Lean kernel; model lean/Cfi/Line.lean; for multi-character delimiters the domain guard is stronger than the property's wording (no character of the delimiter in a rendering).",
         "6/C11",
     ),
+    "C04": (
+        True,
+        "Lean 4 model of the register reading loop on a stream (peek / rewind / dispatch / delegate) + Spec.C04.expected (one element per line of splitLines, each decided by its line alone) + differential correspondence on colliding identifier pools and corrupted contents",
+        "Spec.C04.holds: after the placeholder exactly one element per input line in order; class = first declared register whose identifier occurs in the leading window, else a default register holding the line verbatim; typed data = what the register's layout reads from that line alone. Theorems Props.C04 (flatten_splitLines: nothing lost or duplicated; further refinement lemmas listed in the evidence). Every case compares the real RegisterFile.read with the model's stream loop and with the per-line specification.",
+        "Trusted: Lean kernel; model lean/Cfi/{Register,Files,Stream}.lean; identifiers are literal text (re.search = infix test).",
+        "6/C04",
+    ),
+    "C05": (
+        True,
+        "Lean 4 model of register file write and read + Spec.C05 (Unambiguous, canonical data, holds) + differential correspondence of write -> read -> == on generated definitions and data sequences",
+        "Spec.C05.holds (re-read == placeholder + D in count, classes, data, order; file-level == agrees) and holdsSkipEmpty (all-None registers produce no output, falsy values are kept) are evaluated on every case on the implementation and on the model. Theorems Props.C05 (empty_writes_nothing and the falsy-value facts; the round-trip theorem is staged on the C01 per-kind laws).",
+        "Trusted: Lean kernel; model; the domain (Unambiguous identifiers, canonical fitting data) is decided by the Lean predicate Spec.C05.inDomain, discards counted in the evidence.",
+        "6/C05",
+    ),
+    "C06": (
+        True,
+        "Lean 4 model W.R of register files + Spec.C06.holds (fixed point, default lines verbatim and in order) with the precondition evaluated per case by the reference specification + differential correspondence on perturbed contents",
+        "Spec.C06.holds: y = W(R x) satisfies W(R y) = y byte for byte and the lines of x matching no register are exactly the non-matching lines of y in order; contents produced by a write are reproduced exactly. Representable(x) is evaluated by the model's parse of x per case.",
+        "Trusted: Lean kernel; model; representability and unambiguity are decided by Lean predicates.",
+        "6/C06",
+    ),
+    "C10": (
+        True,
+        "Lean 4 model of Register.write/matches/read in the three storages over a stream + Spec.C10.holds (recognition, identifier columns, one line / exact byte width, canonical read-back, tell() = partial sums) + differential correspondence on streams of 1-8 mixed registers",
+        "Spec.C10.holds is evaluated on every generated stream for positional text, delimited text and binary storage on the implementation and on the model. Theorem Props.C10.recordSize_eq (the byte count requested equals identifier width + field widths).",
+        "Trusted: Lean kernel; model; contiguous binary layouts and ASCII identifiers (domain).",
+        "6/C10",
+    ),
+    "C12": (
+        True,
+        "Lean 4 model of the block reading loop (text and binary) with raw-storing blocks and a regex AST matched by derivatives + Spec.C12.holds (dispatch refinement, accounting, write = input) + differential correspondence",
+        "Spec.C12.holds: elements = readBlockFile (first declared block whose begin pattern is found in the peeked unit, else one default line), stored raw data concatenate to the input, writing reproduces the input exactly, in text and binary storage.",
+        "Trusted: Lean kernel; model; Python re for the AST subset (correspondence only); harness raw-storing block classes.",
+        "6/C12",
+    ),
+    "C13": (
+        True,
+        "Lean 4 model of SectionReading (declared sections in order with stream hand-off, then leftovers) + Spec.C13.holds + exhaustive small-space and random differential correspondence",
+        "Spec.C13.holds: declared sections exactly once each in declared order, each from where the previous stopped, leftovers one default section per line, raw data concatenate to the input, write reproduces it (also for content shorter than the sections expect). Theorem Props.C13.readDeclared_length.",
+        "Trusted: Lean kernel; model; harness raw-storing section classes.",
+        "6/C13",
+    ),
+    "C18": (
+        True,
+        "Lean 4 model of the three reading loops with explicit consumption + Spec.C18.holds (returned, element bound) decided under a deterministic step budget on the implementation + differential element count",
+        "Spec.C18.holds: File.read returns and creates at most units (+declared sections) elements, units = lines (text) or bytes (binary). The harness counts append() calls and aborts at 2*(1+units+sections)+8; budget exhaustion is the failing input. Theorems Props.C18 (readline consumes input; further bounds listed in the evidence).",
+        "Trusted: Lean kernel; model; binary register records at least one byte wide (domain).",
+        "6/C18",
+    ),
 }
 
 ALL = [f"C{i:02d}" for i in range(1, 21)]
